@@ -722,7 +722,56 @@ func encErr(l *hx.Line, e errT, depth *int, caps *int, statuses map[int]bool) {
 		statuses[st] = true
 		node(l, &st, nil, nil, false, func() { l.Tok("O").Str(jt(e.build().Error())) },
 			one(errT{Kind: "new", Msg: bstr(errValidationText)}))
+	default:
+		// any other real error value: read the tree off the value itself
+		*depth--
+		encReal(l, e.build(), depth, caps, statuses)
 	}
+}
+
+// encReal writes a real error value as the rose tree errors.As walks: at each layer what it implements
+// (the same interface assertions errors.As makes), its Error() text, and what Unwrap yields.
+func encReal(l *hx.Line, err error, depth *int, caps *int, statuses map[int]bool) {
+	*depth++
+	var st *int
+	var code *string
+	var det any
+	hasDet := false
+	n := 0
+	if t, ok := err.(riverrors.ErrorType); ok {
+		s := t.HTTPStatus()
+		st = &s
+		statuses[s] = true
+		n++
+	}
+	if c, ok := err.(riverrors.ErrorCode); ok {
+		cs := jt(c.Code())
+		code = &cs
+		n++
+	}
+	if d, ok := err.(riverrors.ErrorDetails); ok {
+		det, hasDet = canonOf(d.Details()), true
+		n++
+	}
+	if n > *caps {
+		*caps = n
+	}
+	var kids []error
+	switch u := err.(type) {
+	case interface{ Unwrap() error }:
+		if k := u.Unwrap(); k != nil {
+			kids = []error{k}
+		}
+	case interface{ Unwrap() []error }:
+		kids = u.Unwrap()
+	}
+	node(l, st, code, det, hasDet, func() { l.Tok("O").Str(jt(err.Error())) }, func() int {
+		l.Nat(len(kids))
+		for _, k := range kids {
+			encReal(l, k, depth, caps, statuses)
+		}
+		return len(kids)
+	})
 }
 
 var helperStatus = []int{404, 400, 401, 403, 409, 410, 422, 429, 500, 503}
